@@ -277,14 +277,24 @@ def views_history(ctx, kind, start, hist, warm):
             snap = (list(held[0]), _copy2(held[1]))
         if view == 'P':
             P = shapes.net(ctx, 'BCD'[step], n, dim)
-            obj.ctrlpts = _copy2(P)
+            passed = _copy2(P)
+            obj.ctrlpts = passed
         elif view == 'W':
             W = shapes.weights(ctx, 'bcd'[step], n)
-            obj.weights = list(W)
+            passed = list(W)
+            obj.weights = passed
         else:
             P = shapes.net(ctx, 'BCD'[step], n, dim)
             W = shapes.weights(ctx, 'bcd'[step], n)
-            obj.ctrlptsw = _copy2(spec.weighted(P, W))
+            passed = _copy2(spec.weighted(P, W))
+            obj.ctrlptsw = passed
+        # what was passed in stays the caller's: editing it afterwards must not change the object
+        if view == 'W':
+            passed[0] = passed[0] + 7
+            passed.append(passed[-1])
+        else:
+            passed[0][0] = passed[0][0] + 7
+            passed[-1] = [c + 1 for c in passed[-1]]
         if held is not None:
             ctx.check_true(tag + '.earlier_weights_result_untouched', len(held[0]) == len(snap[0]),
                            'a weights list read before the edit now has %d entries (had %d)' % (len(held[0]), len(snap[0])))
